@@ -25,6 +25,8 @@ def enc_val(v):
         return v
     if isinstance(v, Event):
         return enc_event(v)
+    if isinstance(v, list):
+        return {'list': [enc_val(x) for x in v]}
     raise Unsupported('value %r' % (v,))
 
 
